@@ -93,6 +93,44 @@ impl HMetric {
     }
 }
 
+/// The motion-check resolution ("longest valid segment length") the documented law gives for a
+/// space specification, computed by the harness itself: fraction x maximum extent for R^n
+/// (diagonal of the box), SO(2) (pi) and SO(3) (pi/2); sqrt(sum (w_k L_k)^2) for compound, SE(2)
+/// and SE(3). The fraction setters keep (0,1], clamp above 1 to 1 and ignore non-positive values
+/// (default 0.05).
+pub fn harness_lvs(spec: &SpaceSpec) -> f64 {
+    let eff = |f: f64| if f > 0.0 && f <= 1.0 { f } else if f > 1.0 { 1.0 } else { 0.05 };
+    let diag = |b: &[(f64, f64)]| -> f64 {
+        if b.iter().any(|(l, h)| !l.is_finite() || !h.is_finite()) {
+            1.0
+        } else {
+            b.iter().map(|(l, h)| (h - l) * (h - l)).sum::<f64>().sqrt()
+        }
+    };
+    match spec {
+        SpaceSpec::RV { dim, bounds, frac } => match bounds {
+            Some(b) => diag(b) * eff(*frac),
+            None => {
+                let _ = dim;
+                1.0 * eff(*frac)
+            }
+        },
+        SpaceSpec::SO2 { frac, .. } => PI * eff(*frac),
+        SpaceSpec::SO3 { frac, .. } => 0.5 * PI * eff(*frac),
+        SpaceSpec::Compound { parts, weights } => parts.iter().zip(weights).map(|(p, w)| (harness_lvs(p) * w) * (harness_lvs(p) * w)).sum::<f64>().sqrt(),
+        SpaceSpec::SE2 { weight, bounds, frac_t, frac_r, native } => {
+            let (ft, fr) = if *native { (0.05, 0.05) } else { (eff(*frac_t), eff(*frac_r)) };
+            let (a, b) = (diag(&bounds[..2.min(bounds.len())]) * ft, PI * fr * weight);
+            (a * a + b * b).sqrt()
+        }
+        SpaceSpec::SE3 { weight, bounds, frac_t, frac_r, native, .. } => {
+            let (ft, fr) = if *native { (0.05, 0.05) } else { (eff(*frac_t), eff(*frac_r)) };
+            let (a, b) = (diag(bounds) * ft, 0.5 * PI * fr * weight);
+            (a * a + b * b).sqrt()
+        }
+    }
+}
+
 /// Weight of every layout component in the space metric (1 for non-compound spaces).
 pub fn comp_weights(spec: &SpaceSpec) -> Vec<f64> {
     match spec {
@@ -426,6 +464,17 @@ pub trait Geo {
     fn interp(&self, a: &[f64], b: &[f64], t: f64) -> St;
     fn in_bounds(&self, a: &[f64]) -> bool;
     fn lvs(&self) -> f64;
+    /// reference resolution for the oracles: the smaller of what the library reports and what
+    /// the documented law gives (equal on a correct library; a library that reports a coarser
+    /// resolution than the law does not loosen the oracle)
+    fn lvs_ref(&self) -> f64 {
+        let (a, b) = (self.lvs(), harness_lvs(self.spec()) * (1.0 + 1e-9));
+        if b > 0.0 && b.is_finite() && b < a {
+            b
+        } else {
+            a
+        }
+    }
     fn sample(&self, rng: &mut Xo) -> Option<St>;
     /// validity of a flat state in world `w` (same function the planner's checker evaluates)
     fn valid(&self, w: usize, a: &[f64]) -> bool;
